@@ -171,6 +171,21 @@ CLAIMED["C18"]["text"] += (" An independent monitor over the implementation's ow
 CLAIMED["C17"]["text"] += (" Also: refused directories without a lock file (known finding E18 for marker absent + lock absent, theorem C17_absent_marker_refuted), and dropping the last handle "
                           "while a sealed journal is tracked followed by a reopen in the same process.")
 
+CLAIMED["C01"]["text"] += (" Theorems (props/C01.v, closed): C01_reads_agree — for EVERY sequence of tree operations (appends, rotation, flush, compaction with any filter, "
+    "clear, ingestion registration, version-history maintenance) respecting the write discipline, the point read of every key at every instant equals the entry the scan shows "
+    "(the sources stay ordered by recency, OrderP.v); C01_point_read_agrees_with_scan_partial; C01_shadowing_refuted_without_recency (what replaying covered journal records produced).")
+CLAIMED["C04"]["text"] += (" Partial theorems (props/C04.v): C04_covered_records_not_replayed_partial (a journal batch the tables already cover changes nothing at replay: "
+    "ingested or filter-produced table data is neither shadowed nor wiped), C04_uncovered_records_replayed_partial. A tenth of the programs seal the journal with real 66 MiB fills "
+    "(the model holds placeholders) and compare the number of journal files with the model after every worker step; fixed histories cover ingestion/clear over records in a sealed journal; "
+    "a writer racing with an ingestion that holds the journal lock.")
+CLAIMED["C12"]["text"] += (" Partial theorems (props/C12.v): C12_recovered_ids_fresh_partial (for ANY disk image the recovered id counter exceeds every directory id and every keyspace id "
+    "in any sealed or active journal record), C12_new_keyspace_takes_next_id_partial, C12_frame_partial, C12_deleted_refused_partial.")
+CLAIMED["C14"]["text"] += (" Partial theorems (props/C14.v) over the interleaving model Conc.v: C14_apply_order_is_seqno_order_partial (for every interleaving the memtable receives writes "
+    "in seqno order = the order in which the journal mutex was taken), C14_nothing_applied_is_lost_partial. Deterministic additions: a writer held at each of 5 pause points while a second "
+    "writer, a rotation and a flush run (the value must not change without a write), and a single-worker progress scenario (L0 must not reach the write-halt threshold).")
+CLAIMED["C02"]["text"] += (" Model level: C02_acknowledged_write_is_journaled_partial, C02_acknowledged_clear_is_journaled_partial. Large-traffic crash scenarios: a keyspace whose "
+    "acknowledged writes live only in a sealed journal.")
+
 m = {"version": 1, "setup_cmd": "./setup.sh",
      "hooks": {"guard": "cargo feature fjall_verif",
                "enable": "harness/Cargo.toml depends on fjall = { path = \"/repo\", features = [\"fjall_verif\"] }",
